@@ -225,6 +225,16 @@ pub enum BOp {
 }
 
 #[derive(Serialize, Deserialize, Clone, Debug, PartialEq)]
+pub enum VOp {
+    /// `check_claim(claim)` on the live parser (replaces an earlier expectation under the same key)
+    CheckClaim(ClaimSpec),
+    /// `validate_claim(claim, slot)` on the live parser
+    ValidateClaim(ValidatorSpec),
+    SetFooter(String),
+    SetAssertion(String),
+}
+
+#[derive(Serialize, Deserialize, Clone, Debug, PartialEq)]
 pub enum Via {
     /// `validate_claim(claim, fn)`
     Validate,
@@ -397,6 +407,15 @@ pub enum Op {
         /// neutralised (DESIGN §5)
         #[serde(default)]
         control: Option<Box<VerifierSpec>>,
+        /// present the token to the (long-lived) parser under this key instead of the verifier's own:
+        /// `parse(token, key)` takes the key per call
+        #[serde(default)]
+        key: Option<usize>,
+    },
+    /// re-configure a live verifier (parser layers): the parser object stays, its configuration changes
+    Reconfigure {
+        v: u32,
+        op: VOp,
     },
     /// Key::<N>::try_from(&str)
     KeyParse {
@@ -515,5 +534,6 @@ pub enum Obs {
     Literal,
     NewVerifier { ok: bool, notes: Vec<String> },
     Deliver { main: DeliverObs, twin: Option<DeliverObs>, control: Option<DeliverObs> },
+    Reconfigure { applied: bool },
     KeyParse { outcome: Outcome },
 }
